@@ -359,7 +359,6 @@ theorem prelude_ok (hd : Header F P) (pre : SliderPrelude F) (h : sliderPrelude 
             · cases h
             · cases h
               have e : bankInfo = (readExtras (rest2.drop 3) true).1 := by rw [hbank]
-              have hb := readBanks_banksOnly
               refine ⟨parseLength_parsed rest2 len hlen, ?_, ?_⟩
               · show bankInfo.filename = none
                 rw [e]; exact readExtras_banksOnly_file _
